@@ -129,3 +129,27 @@ Definition json_type_mapping : list (str * str) :=
   [(s_ "Array", s_ "array"); (s_ "Boolean", s_ "boolean"); (s_ "Integer", s_ "integer");
    (s_ "Null", s_ "null"); (s_ "ObjectMeta", s_ "object"); (s_ "Number", s_ "number");
    (s_ "String", s_ "string")].
+
+(* ---- audited write set of statham/schema (outside the parser): (module, function, write, class).
+   Bind      : the three stores of _Property.bind — the only writes on a validation call path
+               (Properties.__init__ -> prop.bind; identities on well-bound properties, Store.v);
+   Config    : the reconfiguration API (properties setter, _PropertyDict, class construction);
+   Registry  : format_checker.register;
+   Result    : attribute assignment on a returned _AnonymousObject (a result, not a schema);
+   Local     : in-place operators on immutable strings / freshly created helper objects. *)
+Inductive wclass := WBindC | WConfig | WRegistry | WResult | WLocal.
+Definition audited_writes : list (str * str * str * wclass) :=
+  [(s_ "property", s_ "_Property.bind", s_ "store self.name", WBindC);
+   (s_ "property", s_ "_Property.bind", s_ "store self.parent", WBindC);
+   (s_ "property", s_ "_Property.bind", s_ "store self.source", WBindC);
+   (s_ "elements.base", s_ "Element.properties", s_ "store self._properties", WConfig);
+   (s_ "elements.base", s_ "Element.properties", s_ "store self._properties.parent", WConfig);
+   (s_ "property", s_ "_PropertyDict.__setitem__", s_ "call super().__setitem__", WConfig);
+   (s_ "property", s_ "_PropertyDict.parent", s_ "store self._parent", WConfig);
+   (s_ "elements.meta", s_ "ObjectClassDict.__setitem__", s_ "call self.properties.__setitem__", WConfig);
+   (s_ "elements.meta", s_ "ObjectClassDict.__setitem__", s_ "call super().__setitem__", WConfig);
+   (s_ "elements.object", s_ "Object.__init_subclass__", s_ "store cls.description", WConfig);
+   (s_ "validation.format", s_ "_FormatString.register._register_callable", s_ "store self._callable_register[]", WRegistry);
+   (s_ "elements.base", s_ "_AnonymousObject.__setattr__", s_ "call self.__setitem__", WResult);
+   (s_ "elements.meta", s_ "ObjectMeta.python", s_ "augassign class_def", WLocal);
+   (s_ "property", s_ "_Property.__repr__", s_ "call repr_args.kwargs.pop", WLocal)].
